@@ -152,6 +152,13 @@ func (x *Exec) builtin(fr *Frame, st *State, b *ssa.Builtin, args []Val, instr s
 		st.dead = true
 		return nil
 	case "recover":
+		if x.panicMode {
+			// unwinding a panic: recover returns the (non-nil) panic value and stops the unwinding
+			x.didRecover = true
+			r := x.freshVal(st, "recovered", sig.Results().At(0).Type())
+			x.smt.Assert(implies(st.pc, not(eq(r.L[0], "inil"))))
+			return []Val{r}
+		}
 		return []Val{zeroVal(sig.Results().At(0).Type())}
 	case "close":
 		return nil
@@ -575,6 +582,16 @@ func modelCacheGet(x *Exec, fr *Frame, st *State, args []Val, instr ssa.Instruct
 	val := x.heapRead(st, "map:Str:gocache:val", SIface, c, k)
 	found := x.smt.Fresh("cache.found", SBool)
 	x.smt.Assert(implies(found, has))
+	// ghost record of the lookup (declared in http.spec): outcome, key and cache of the last Get
+	if g, ok := st.ghost["cacheFound"]; ok {
+		st.ghost["cacheFound"] = Val{T: g.T, L: []string{found}}
+	}
+	if g, ok := st.ghost["cacheFoundKey"]; ok {
+		st.ghost["cacheFoundKey"] = Val{T: g.T, L: []string{k}}
+	}
+	if g, ok := st.ghost["cacheFoundIn"]; ok {
+		st.ghost["cacheFoundIn"] = Val{T: g.T, L: []string{c}}
+	}
 	return []Val{{T: sig.Results().At(0).Type(), L: []string{ite(found, val, "inil")}}, {T: types.Typ[types.Bool], L: []string{found}}}
 }
 
